@@ -413,8 +413,16 @@ _MODEL_CACHE = {}
 
 
 def base_model(name):
+    """example model; moxo's $DATA file is not shipped, so the shipped moxo.csv (same columns) is attached"""
     if name not in _MODEL_CACHE:
-        _MODEL_CACHE[name] = pm().load_example_model(name)
+        m = pm().load_example_model(name)
+        if m.dataset is None and name == 'moxo':
+            import pandas as pd
+            import pharmpy
+
+            p = os.path.join(os.path.dirname(pharmpy.__file__), 'internals', 'example_models', 'moxo.csv')
+            m = m.replace(dataset=pd.read_csv(p).astype('float64'))
+        _MODEL_CACHE[name] = m
     return _MODEL_CACHE[name]
 
 
@@ -484,17 +492,47 @@ def _fid(fn):
 # ----------------------------------------------------------------------------------------------
 
 def _positional_renaming(m0, m1):
-    """renaming declared by greekify_model: i-th parameter -> i-th parameter, i-th rv -> i-th rv"""
+    """renaming by position within each kind: i-th theta -> i-th theta, i-th eta -> i-th eta, i-th
+    epsilon -> i-th epsilon, (i,j) element of the k-th distribution's covariance -> same element.
+    This is the renaming greekify_model / a change of model format declares."""
+    P = pm()
     ren = {}
-    if len(m0.parameters) == len(m1.parameters):
-        ren.update(dict(zip(m0.parameters.names, m1.parameters.names)))
-    if len(m0.random_variables.names) == len(m1.random_variables.names):
-        ren.update(dict(zip(m0.random_variables.names, m1.random_variables.names)))
-    return ren
+    t0, t1 = list(P.get_thetas(m0).names), list(P.get_thetas(m1).names)
+    if len(t0) == len(t1):
+        ren.update(zip(t0, t1))
+    for sel in ('etas', 'epsilons'):
+        r0, r1 = getattr(m0.random_variables, sel), getattr(m1.random_variables, sel)
+        if len(r0.names) == len(r1.names):
+            ren.update(zip(r0.names, r1.names))
+        if len(r0) == len(r1) and all(len(a.names) == len(b.names) for a, b in zip(r0, r1)):
+            for a, b in zip(r0, r1):
+                n = len(a.names)
+                if n == 1:
+                    pairs = [(a.variance, b.variance)]
+                else:
+                    pairs = [(a.variance[i, j], b.variance[i, j]) for i in range(n) for j in range(i + 1)]
+                for x, y in pairs:
+                    sx, sy = _sp(x), _sp(y)
+                    if isinstance(sx, sympy.Symbol) and isinstance(sy, sympy.Symbol):
+                        ren.setdefault(sx.name, sy.name)
+    return {a: b for a, b in ren.items() if a != b}
 
 
 def _reparse(m):
-    return pm().read_model_from_string(m.code)
+    """write the model (and its dataset when it was changed) to a temporary directory and read it back"""
+    import shutil
+    import tempfile
+
+    d = tempfile.mkdtemp(prefix='b_ext_')
+    try:
+        path = os.path.join(d, 'm.mod')
+        pm().write_model(m, path, force=True)
+        r = pm().read_model(path)
+        r.dataset  # the dataset decides e.g. the kind of dose: make sure it is read before the files go
+        r.statements
+        return r
+    finally:
+        shutil.rmtree(d, ignore_errors=True)
 
 
 def _refactorings():
@@ -872,6 +910,9 @@ def run_refactoring_case(case, tier='quick'):
     try:
         m1, ren = run(m0, case['arg'])
     except Exception as e:
+        if solve and isinstance(e, (ValueError, NotImplementedError)):
+            # "Replace ODE system with analytical solution if possible": a refusal
+            return {'nontrivial': False, 'fails': [], 'note': f'refused: {e}'}
         tb = traceback.format_exc().strip().splitlines()
         loc = [ln.strip() for ln in tb if ln.strip().startswith('File')][-1:]
         fail('refactoring completes without an exception on a valid model',
@@ -1032,6 +1073,1171 @@ def bounded_refactorings(tier):
 
 def bounded_refactorings_replay(rp):
     res = run_refactoring_case(rp['case'], rp.get('tier', 'quick'))
+    want = rp.get('clause')
+    for fid, clause, detail in res['fails']:
+        if want is None or clause == want:
+            return False, detail[:900]
+    return True, 'ok'
+
+
+# ----------------------------------------------------------------------------------------------
+# (2) extensions  -- C09
+# ----------------------------------------------------------------------------------------------
+
+def ref_median(model, cov):
+    """median over individuals of the individual's median covariate value (plain numpy)"""
+    df = model.dataset
+    idc = model.datainfo.id_column.name
+    ids = df[idc].to_numpy()
+    v = df[cov].to_numpy(dtype=float)
+    per = [float(np.median(v[ids == i])) for i in np.unique(ids)]
+    return float(np.median(per))
+
+
+def ref_mode(model, cov):
+    """most common category: the value that the largest number of individuals have (ties: smallest)"""
+    df = model.dataset
+    idc = model.datainfo.id_column.name
+    ids = df[idc].to_numpy()
+    v = df[cov].to_numpy(dtype=float)
+    count = {}
+    for i in np.unique(ids):
+        for c in set(v[ids == i].tolist()):
+            count[c] = count.get(c, 0) + 1
+    best = max(count.values())
+    return min(c for c, n in count.items() if n == best), sorted(count)
+
+
+def ref_template(effect, cov, th, ref):
+    """documented effect functions of add_covariate_effect (continuous templates)"""
+    if effect == 'lin':
+        return 1 + th[0] * (cov - ref)
+    if effect == 'piece_lin':
+        return 1 + th[0] * (cov - ref) if cov <= ref else 1 + th[1] * (cov - ref)
+    if effect == 'exp':
+        return math.exp(th[0] * (cov - ref))
+    if effect == 'pow':
+        return (cov / ref) ** th[0]
+    raise ValueError(effect)
+
+
+def documented_bounds(effect, idx, med, cmin, cmax):
+    """(init, lower, upper) from the docstring of add_covariate_effect; None where the text is not
+    unambiguous (exp: base of the logarithm)"""
+    if effect == 'lin':
+        up = 100000 if med == cmin else 1 / (med - cmin)
+        lo = -100000 if med == cmax else 1 / (med - cmax)
+        return 0.001, lo, up
+    if effect == 'cat':
+        return 0.001, -1, 5
+    if effect == 'cat2':
+        return 0.001, 0, 6
+    if effect == 'piece_lin':
+        if idx == 0:
+            return 0.001, -100000, 1 / (med - cmin)
+        return 0.001, 1 / (med - cmax), 100000
+    if effect == 'pow':
+        return 0.001, -100, 100000
+    return None
+
+
+_CONT = ('lin', 'piece_lin', 'exp', 'pow')
+_CAT = ('cat', 'cat2')
+_COV_MODELS = {
+    'pheno': (['CL', 'VC'], ['WGT', 'APGR'], ['APGR', 'FA1']),
+    'moxo': (['CL', 'V', 'KA'], ['AGE', 'WT', 'CRCL'], ['SEX', 'COMP']),
+}
+
+
+def extension_cases(tier):
+    cases = []
+    # covariate effects
+    for mname in ('pheno', 'moxo'):
+        pars, cont, cat = _COV_MODELS[mname]
+        for par in pars:
+            for eff in _CONT + _CAT:
+                for cov in (cont if eff in _CONT else cat):
+                    for op in ('*', '+'):
+                        cases.append({'family': 'cov', 'model': mname, 'parameter': par, 'covariate': cov,
+                                      'effect': eff, 'operation': op})
+    # iiv
+    for mname, pars in (('pheno', ['S1', 'TVCL', 'CL']), ('moxo', ['ALAG1', 'K', 'V'])):
+        for par in pars:
+            for expr in ('add', 'prop', 'exp', 'log', 're_log'):
+                for op in (('*', '+') if expr == 'exp' else ('*',)):
+                    cases.append({'family': 'iiv', 'model': mname, 'parameter': par, 'expression': expr,
+                                  'operation': op})
+    # remove_iiv of existing etas
+    for mname, targets in (('pheno', ['CL', 'VC', 'ETA_CL', None]), ('moxo', ['CL', 'KA', 'ETA_2', None])):
+        for tg in targets:
+            cases.append({'family': 'remove_iiv', 'model': mname, 'target': tg})
+    # iov
+    for occ in ('FA1', 'APGR'):
+        for pars in (None, ['CL'], ['ETA_VC'], ['CL', 'VC']):
+            for dist in ('disjoint', 'joint', 'same-as-iiv'):
+                cases.append({'family': 'iov', 'model': 'pheno', 'occ': occ, 'parameters': pars,
+                              'distribution': dist})
+    for pars in (None, ['V'], ['CL', 'V']):
+        cases.append({'family': 'iov', 'model': 'moxo', 'variant': 'remove_iov', 'occ': 'VISI',
+                      'parameters': pars, 'distribution': 'disjoint'})
+    cases.append({'family': 'remove_iov', 'model': 'moxo'})
+    # eta transformations
+    for mname, etas in (('pheno', ['ETA_CL', 'ETA_VC']), ('moxo', ['ETA_1', 'ETA_3'])):
+        for tr in ('boxcox', 'tdist', 'john_draper'):
+            for sel in [None] + [[e] for e in etas] + [etas]:
+                cases.append({'family': 'transform', 'model': mname, 'transformation': tr, 'etas': sel})
+    # allometry
+    for mname, variant, var in (('pheno', 'remove_WGT', 'WGT'), ('pheno', 'none', 'WGT'), ('pheno', 'none', 'APGR'),
+                                ('moxo', 'none', 'WT'), ('moxo', 'add_peripheral_compartment', 'WT')):
+        for ref in (70, 1.5):
+            for pars in (None, 'first', 'last'):
+                for fixed in (True, False):
+                    cases.append({'family': 'allometry', 'model': mname, 'variant': variant, 'variable': var,
+                                  'reference_value': ref, 'parameters': pars, 'fixed': fixed})
+    # error models: sequences of <= 2 setters
+    setters = ['additive', 'proportional', 'combined', 'additive_log', 'proportional_log', 'combined_log',
+               'proportional_nozp', 'power_on_ruv', 'power_on_ruv_zp', 'time_varying', 'weighted', 'remove']
+    second = ['additive', 'proportional', 'combined', 'power_on_ruv', 'time_varying', 'weighted', 'remove']
+    first = ['additive', 'proportional', 'combined', 'remove', 'power_on_ruv', 'time_varying', 'weighted']
+    for mname in ('pheno', 'moxo'):
+        for s in setters:
+            cases.append({'family': 'error', 'model': mname, 'setters': [s]})
+        for a in first:
+            for b in second:
+                cases.append({'family': 'error', 'model': mname, 'setters': [a, b]})
+    return cases
+
+
+def _ext_variant(case):
+    base = case['model']
+    variant = case.get('variant', 'none')
+    if variant == 'remove_WGT':
+        key = (base, variant)
+        if key not in _MODEL_CACHE:
+            m = base_model(base)
+            m = pm().remove_covariate_effect(m, 'CL', 'WGT')
+            m = pm().remove_covariate_effect(m, 'VC', 'WGT')
+            _MODEL_CACHE[key] = m
+        return _MODEL_CACHE[key]
+    return variant_model(base, variant)
+
+
+_DOC_EXC = (ValueError, NotImplementedError)
+
+
+class _Fails:
+    def __init__(self, fid, tag):
+        self.fid = fid
+        self.tag = tag
+        self.items = []
+        self.seen = set()
+
+    def __call__(self, clause, detail, fid=None):
+        key = (fid or self.fid, clause)
+        if key not in self.seen:
+            self.seen.add(key)
+            self.items.append((fid or self.fid, clause, f'{self.tag}: {detail}'))
+
+
+def _exc_detail(e):
+    tb = traceback.format_exc().strip().splitlines()
+    loc = [ln.strip() for ln in tb if ln.strip().startswith('File')][-1:]
+    return f'raised {type(e).__name__}: {str(e)[:200]} {loc}'
+
+
+def _grid(model, K, extra=()):
+    pts = make_points(model, K)
+    for k, pt in enumerate(pts):
+        if 'AMT' in pt and k % 2 == 0:
+            pt['AMT'] = 25.0 * (k + 1)
+    return pts
+
+
+def _eval_or_none(model, pt):
+    try:
+        return eval_model(model, pt)
+    except Undefined:
+        return None
+
+
+def _unchanged(fail, clause, m0, m1, pts, names=None, skip=()):
+    """every observable (dependent variables + individual parameters of m0, or `names`) and the
+    compartmental system have the same value in m0 and m1 at every point"""
+    dvs, ips = _observables(m0)
+    names = list(names) if names is not None else dvs + ips
+    for k, pt in enumerate(pts):
+        r0 = _eval_or_none(m0, pt)
+        if r0 is None:
+            continue
+        try:
+            d1, sig1, _ = eval_model(m1, pt)
+        except Undefined as e:
+            fail('every symbol used is defined', str(e))
+            return False
+        d0, sig0, _ = r0
+        for n in names:
+            if n in skip or n not in d0 or _isbad(d0[n]):
+                continue
+            if n not in d1:
+                fail(clause, f'{n} is no longer assigned')
+                return False
+            if not close(d0[n], d1[n]):
+                fail(clause, f'{n}: {d0[n]!r} before, {d1[n]!r} after at point {_short_pt(pt)}')
+                return False
+        diff = sig_diff(sig0, sig1)
+        if diff:
+            fail(clause, f'compartmental system: {diff}')
+            return False
+    return True
+
+
+# -- covariate effects ---------------------------------------------------------------------------
+
+def _run_cov(case, K):
+    P = pm()
+    fid = _fid(P.add_covariate_effect)
+    par, cov, eff, op = case['parameter'], case['covariate'], case['effect'], case['operation']
+    fail = _Fails(fid, f"{case['model']} add_covariate_effect({par},{cov},{eff},{op!r})")
+    m0 = base_model(case['model'])
+    snap = _snapshot(m0)
+    nested = _depends_numerically(m0, par, cov)
+    results = []
+    for allow in ([False, True] if nested else [False]):
+        try:
+            m1 = P.add_covariate_effect(m0, par, cov, eff, op, allow_nested=allow)
+        except Exception as e:
+            fail('completes without an undocumented exception', _exc_detail(e))
+            continue
+        results.append((allow, m1))
+    after = _snapshot(m0)
+    if not all(a == b for a, b in zip(snap, after)):
+        fail('input model is not modified', 'input model changed')
+    for allow, m1 in results:
+        if nested and not allow:
+            # documented: nothing is added when the effect exists and allow_nested is False
+            _unchanged(fail, 'with allow_nested=False an existing parameter-covariate relation is left unchanged',
+                       m0, m1, _grid(m0, K))
+            if m1.parameters.names != m0.parameters.names:
+                fail('with allow_nested=False an existing parameter-covariate relation is left unchanged',
+                     f'parameters {m1.parameters.names}')
+            continue
+        _check_cov_effect(case, fail, m0, m1, K)
+    return {'nontrivial': True, 'fails': fail.items}
+
+
+def _depends_numerically(model, par, cov):
+    """does the value of `par` change when only the covariate changes? (reference for 'effect exists')"""
+    pts = _grid(model, 4)
+    for pt in pts:
+        vals = set()
+        for delta in (0.0, 1.0, -0.5, 3.0):
+            q = dict(pt)
+            q[cov] = pt[cov] + delta
+            r = _eval_or_none(model, q)
+            if r is None or par not in r[0]:
+                continue
+            vals.add(round(r[0][par], 12))
+        if len(vals) > 1:
+            return True
+    return False
+
+
+def _check_cov_effect(case, fail, m0, m1, K):
+    P = pm()
+    par, cov, eff, op = case['parameter'], case['covariate'], case['effect'], case['operation']
+    new_th = [n for n in m1.parameters.names if n not in m0.parameters.names]
+    if not new_th:
+        fail(f'[{eff}] new theta parameters are added', 'no new parameter')
+        return
+    df = m0.dataset
+    cmin, cmax = float(df[cov].min()), float(df[cov].max())
+    if eff in _CONT:
+        ref = ref_median(m0, cov)
+        cats = []
+        specials = [ref, cmin, cmax, (ref + cmax) / 2, (ref + cmin) / 2]
+    else:
+        ref, cats = ref_mode(m0, cov)
+        specials = [ref] + [c for c in cats if c != ref]
+    base_pts = _grid(m1, K)
+    pts = list(base_pts)
+    for j, sv in enumerate(specials):
+        q = dict(base_pts[j % len(base_pts)])
+        q[cov] = sv
+        pts.append(q)
+    neutral = 1.0 if op == '*' else 0.0
+    used_theta = {}
+    dvs, ips = _observables(m0)
+    for k, pt in enumerate(pts):
+        r0 = _eval_or_none(m0, pt)
+        if r0 is None or par not in r0[0] or _isbad(r0[0][par]):
+            continue
+        try:
+            d1, sig1, _ = eval_model(m1, pt)
+        except Undefined as e:
+            fail('every symbol used is defined', str(e))
+            return
+        d0, sig0, _ = r0
+        c = pt[cov]
+        th = [pt[n] for n in new_th]
+        old, new = d0[par], d1.get(par, float('nan'))
+        if eff in _CONT:
+            if eff == 'piece_lin' and len(th) != 2 or eff != 'piece_lin' and len(th) != 1:
+                fail(f'[{eff}] number of new thetas is as documented', f'{new_th}')
+                return
+            try:
+                t = ref_template(eff, c, th, ref)
+            except (ZeroDivisionError, ValueError, OverflowError):
+                continue
+            if isinstance(t, complex):
+                continue
+            want = old * t if op == '*' else old + t
+            if not close(want, new, rtol=1e-7):
+                fail(f'[{eff}] parameter equals old parameter (op) documented effect function of the covariate '
+                     f'centred on the median over individuals',
+                     f'{par}: old {old!r}, {cov}={c}, thetas {dict(zip(new_th, th))}, median {ref}: expected '
+                     f'{want!r}, model gives {new!r}')
+        else:
+            got = new / old if op == '*' else new - old
+            if c == ref:
+                if not close(got, 1.0, rtol=1e-7):
+                    fail(f'[{eff}] effect is 1 for the most common category',
+                         f'{cov}={c} (most common among individuals): effect {got!r}')
+            elif c in cats:
+                cand = [n for n in new_th if close(got, (1 + pt[n]) if eff == 'cat' else pt[n], rtol=1e-7)]
+                if len(cand) != 1:
+                    fail(f'[{eff}] effect of another category is the documented function of exactly one new theta',
+                         f'{cov}={c}: effect {got!r}, thetas {dict(zip(new_th, th))}')
+                else:
+                    prev = used_theta.setdefault(cand[0], c)
+                    if prev != c:
+                        fail(f'[{eff}] different categories use different thetas',
+                             f'{cand[0]} used for {prev} and {c}')
+        if c == ref:
+            # neutral element of the operation at the reference covariate value
+            for n in dvs + ips:
+                if n in d0 and n in d1 and not _isbad(d0[n]) and not close(d0[n], d1[n], rtol=1e-7):
+                    fail(f'[operation {op}] effect is the neutral element at the reference covariate value '
+                         f'(all individual parameters and observations unchanged there)',
+                         f'effect {eff}, {cov}={c} (reference): {n} was {d0[n]!r}, now {d1[n]!r}')
+                    break
+        for n in ips:
+            if n != par and n in d0 and not _isbad(d0[n]) and not _downstream(m0, par, n):
+                if n not in d1 or not close(d0[n], d1[n]):
+                    fail('individual parameters that do not depend on the target parameter are unchanged',
+                         f'{n}: {d0[n]!r} -> {d1.get(n)!r}')
+    if eff in _CAT:
+        want_n = len(cats) - 1
+        if len(new_th) != want_n:
+            fail(f'[{eff}] one theta per additional category', f'{len(cats)} categories, thetas {new_th}')
+    if cs_symbolic(m0) != cs_symbolic(m1):
+        fail('compartmental system is not modified', f'{cs_symbolic(m0)} -> {cs_symbolic(m1)}')
+    # initial estimates and bounds as documented
+    for i, n in enumerate(new_th):
+        doc = documented_bounds(eff, i, ref_median(m0, cov), cmin, cmax)
+        if doc is None:
+            continue
+        p = m1.parameters[n]
+        got = (float(p.init), float(p.lower), float(p.upper))
+        if not all(abs(a - b) <= 5e-5 + 1e-4 * abs(b) for a, b in zip(got, doc)):
+            fail(f'[{eff}] new theta has the documented initial estimate and bounds',
+                 f'{n}: (init, lower, upper) = {got}, documented {tuple(round(x, 4) for x in doc)} '
+                 f'(median {ref_median(m0, cov)}, min {cmin}, max {cmax})')
+            break
+    for n in new_th:
+        p = m1.parameters[n]
+        if not (float(p.lower) <= float(p.init) <= float(p.upper)):
+            fail('initial estimate lies within the bounds', f'{n}: {p.init} not in [{p.lower}, {p.upper}]')
+    # removal restores the previous function
+    fidr = _fid(P.remove_covariate_effect)
+    if not _depends_numerically(m0, par, cov):
+        try:
+            m2 = P.remove_covariate_effect(m1, par, cov)
+        except Exception as e:
+            fail('completes without an undocumented exception', _exc_detail(e), fid=fidr)
+            return
+        f2 = _Fails(fidr, fail.tag + ' then remove_covariate_effect')
+        _unchanged(f2, 'remove_covariate_effect after add_covariate_effect restores the model function',
+                   m0, m2, _grid(m0, K))
+        left = [n for n in new_th if n in m2.parameters.names]
+        if left:
+            f2('remove_covariate_effect removes the thetas of the effect', f'{left} still present')
+        fail.items.extend(f2.items)
+
+
+def _downstream(model, par, other):
+    """does `other` change when the value assigned to `par` is perturbed? (numeric dependency)"""
+    from pharmpy.model import Assignment
+
+    pt = _grid(model, 1)[0]
+    env = dict(pt)
+    env2 = dict(pt)
+    hit = False
+    for s in model.statements:
+        if not isinstance(s, Assignment):
+            continue
+        try:
+            v = num(s.expression, env)
+            v2 = num(s.expression, env2)
+        except Undefined:
+            return True
+        k = _sname(s.symbol)
+        env[k] = v
+        env2[k] = v2 * 1.37 + 0.11 if k == par else v2
+        if k == other:
+            hit = not close(env[k], env2[k])
+    return hit
+
+
+def cs_symbolic(model):
+    """printable description of the compartmental system (used as a frame condition: not modified)"""
+    from pharmpy.model import Compartment
+
+    cs = model.statements.ode_system
+    if cs is None:
+        return None
+    comps = sorted((c.name, str(c.doses), str(_sp(c.lag_time)), str(_sp(c.bioavailability)), str(_sp(c.input)))
+                   for c in cs._g.nodes if isinstance(c, Compartment))
+    edges = sorted((u.name, getattr(v, 'name', 'OUTPUT'), str(_sp(d['rate']))) for u, v, d in cs._g.edges(data=True))
+    return comps, edges
+
+
+# -- IIV -----------------------------------------------------------------------------------------
+
+def ref_iiv(expr, op, theta, eta):
+    """documented formulas of add_iiv for a statement CL = THETA"""
+    if expr == 'add':
+        return theta + eta
+    if expr == 'prop':
+        return theta * (1 + eta)
+    if expr == 'exp':
+        return theta * math.exp(eta) if op == '*' else theta + math.exp(eta)
+    if expr == 'log':
+        return theta * math.exp(eta) / (math.exp(eta) + 1)
+    if expr == 're_log':
+        phi = math.log(theta / (1 - theta))
+        return math.exp(phi * eta) / (1 + math.exp(phi * eta))
+    raise ValueError(expr)
+
+
+def _run_iiv(case, K):
+    P = pm()
+    fid = _fid(P.add_iiv)
+    par, expr, op = case['parameter'], case['expression'], case['operation']
+    fail = _Fails(fid, f"{case['model']} add_iiv({par},{expr},{op!r})")
+    m0 = base_model(case['model'])
+    snap = _snapshot(m0)
+    try:
+        m1 = P.add_iiv(m0, par, expr, operation=op)
+    except Exception as e:
+        fail('completes without an undocumented exception', _exc_detail(e))
+        return {'nontrivial': True, 'fails': fail.items}
+    if not all(a == b for a, b in zip(snap, _snapshot(m0))):
+        fail('input model is not modified', 'input model changed')
+    new_eta = [n for n in m1.random_variables.names if n not in m0.random_variables.names]
+    new_par = [n for n in m1.parameters.names if n not in m0.parameters.names]
+    if len(new_eta) != 1 or len(new_par) != 1:
+        fail('one new eta with one new omega is added', f'etas {new_eta}, parameters {new_par}')
+        return {'nontrivial': True, 'fails': fail.items}
+    eta = new_eta[0]
+    if abs(float(m1.parameters[new_par[0]].init) - 0.09) > 1e-12:
+        fail('initial estimate of the new omega is 0.09', f'{m1.parameters[new_par[0]].init}')
+    dvs, ips = _observables(m0)
+    nontriv = False
+    for pt in _grid(m1, K):
+        r0 = _eval_or_none(m0, pt)
+        if r0 is None or par not in r0[0] or _isbad(r0[0][par]):
+            continue
+        d0 = r0[0]
+        try:
+            d1 = eval_model(m1, pt)[0]
+            q = dict(pt)
+            q[eta] = 0.0
+            dz = eval_model(m1, q)[0]
+        except Undefined as e:
+            fail('every symbol used is defined', str(e))
+            break
+        try:
+            want = ref_iiv(expr, op, d0[par], pt[eta])
+        except (ValueError, ZeroDivisionError, OverflowError):
+            want = None
+        if want is not None:
+            nontriv = True
+            if not close(want, d1.get(par, float('nan')), rtol=1e-7):
+                fail(f'[{expr}{op if expr == "exp" else ""}] parameter equals the documented function of the old '
+                     f'parameter value and the new eta',
+                     f'{par}: old {d0[par]!r}, {eta}={pt[eta]!r}: expected {want!r}, model gives {d1.get(par)!r}')
+        for n in dvs + ips:
+            if n in d0 and not _isbad(d0[n]):
+                if n not in dz or not close(d0[n], dz[n], rtol=1e-7):
+                    fail(f'[{expr}{op if expr == "exp" else ""}] predictions and parameters are unchanged at eta = 0',
+                         f'{n}: {d0[n]!r} without the eta, {dz.get(n)!r} with {eta}=0')
+                    break
+    if cs_symbolic(m0) != cs_symbolic(m1):
+        fail('compartmental system is not modified', f'{cs_symbolic(m0)} -> {cs_symbolic(m1)}')
+    # removal
+    fidr = _fid(P.remove_iiv)
+    try:
+        m2 = P.remove_iiv(m1, eta)
+        f2 = _Fails(fidr, fail.tag + f' then remove_iiv({eta})')
+        if expr in ('add', 'prop') or (expr == 'exp' and op == '*'):
+            _unchanged(f2, 'remove_iiv after add_iiv restores the model function', m0, m2, _grid(m0, K))
+        if eta in m2.random_variables.names or new_par[0] in m2.parameters.names:
+            f2('remove_iiv removes the eta and its omega', f'{m2.random_variables.names} {m2.parameters.names}')
+        fail.items.extend(f2.items)
+    except Exception as e:
+        fail('completes without an undocumented exception', _exc_detail(e), fid=fidr)
+    return {'nontrivial': nontriv, 'fails': fail.items}
+
+
+def _numeric_eta_dependence(model, name, etas):
+    """subset of `etas` whose value changes the final value of `name`"""
+    out = set()
+    for pt in _grid(model, 3):
+        r = _eval_or_none(model, pt)
+        if r is None or name not in r[0]:
+            continue
+        for e in etas:
+            q = dict(pt)
+            q[e] = pt[e] + 0.31
+            r2 = _eval_or_none(model, q)
+            if r2 is not None and name in r2[0] and not close(r[0][name], r2[0][name]):
+                out.add(e)
+    return out
+
+
+def _run_remove_iiv(case, K):
+    P = pm()
+    fid = _fid(P.remove_iiv)
+    tg = case['target']
+    fail = _Fails(fid, f"{case['model']} remove_iiv({tg})")
+    m0 = base_model(case['model'])
+    iiv = list(m0.random_variables.iiv.names)
+    if tg is None:
+        expected = set(iiv)
+    elif tg in m0.random_variables.names:
+        expected = {tg}
+    else:
+        expected = _numeric_eta_dependence(m0, tg, iiv)
+    try:
+        m1 = P.remove_iiv(m0, tg)
+    except Exception as e:
+        fail('completes without an undocumented exception', _exc_detail(e))
+        return {'nontrivial': True, 'fails': fail.items}
+    removed = set(m0.random_variables.names) - set(m1.random_variables.names)
+    if removed != expected:
+        fail('exactly the IIV etas named (or acting on the named parameter) are removed',
+             f'removed {sorted(removed)}, expected {sorted(expected)}')
+    dvs, ips = _observables(m0)
+    for pt in _grid(m0, K):
+        q = dict(pt)
+        for e in expected:
+            q[e] = 0.0
+        r0 = _eval_or_none(m0, q)
+        if r0 is None:
+            continue
+        try:
+            d1 = eval_model(m1, pt)[0]
+        except Undefined as e:
+            fail('every symbol used is defined', str(e))
+            break
+        for n in dvs + ips:
+            if n in r0[0] and not _isbad(r0[0][n]) and (n not in d1 or not close(r0[0][n], d1[n], rtol=1e-7)):
+                fail('model without the etas equals the old model with these etas set to 0',
+                     f'{n}: expected {r0[0][n]!r}, got {d1.get(n)!r} at {_short_pt(pt)}')
+                break
+    return {'nontrivial': True, 'fails': fail.items}
+
+
+# -- IOV -----------------------------------------------------------------------------------------
+
+def _run_iov(case, K):
+    P = pm()
+    fid = _fid(P.add_iov)
+    occ, pars, dist = case['occ'], case['parameters'], case['distribution']
+    fail = _Fails(fid, f"{case['model']}/{case.get('variant', 'none')} add_iov({occ},{pars},{dist})")
+    m0 = _ext_variant(case)
+    snap = _snapshot(m0)
+    try:
+        m1 = P.add_iov(m0, occ, pars, distribution=dist)
+    except Exception as e:
+        fail('completes without an undocumented exception', _exc_detail(e))
+        return {'nontrivial': True, 'fails': fail.items}
+    if not all(a == b for a, b in zip(snap, _snapshot(m0))):
+        fail('input model is not modified', 'input model changed')
+    new_etas = [n for n in m1.random_variables.names if n not in m0.random_variables.names]
+    iiv = list(m0.random_variables.iiv.names)
+    if pars is None:
+        base = list(iiv)
+    else:
+        base = []
+        for p in pars:
+            for e in ([p] if p in iiv else sorted(_numeric_eta_dependence(m0, p, iiv))):
+                if e not in base:
+                    base.append(e)
+    cats = sorted(set(float(x) for x in m0.dataset[occ].unique()))
+    if len(new_etas) != len(base) * len(cats):
+        fail('one new eta per base eta and occasion', f'{len(base)} etas x {len(cats)} occasions but new etas {new_etas}')
+    dvs, ips = _observables(m0)
+    names = dvs + ips
+    pts = _grid(m1, max(2, K // 3))
+    active = {}   # (cat, base eta) -> new etas found active
+    where = {}    # new eta -> set of cats where it is active
+
+    def same(da, db):
+        for n in names:
+            if n in da and not _isbad(da[n]):
+                if n not in db or not close(da[n], db[n], rtol=1e-7):
+                    return False
+        return True
+
+    ok = True
+    for pt in pts:
+        for c in cats:
+            q = dict(pt)
+            q[occ] = c
+            r0 = _eval_or_none(m0, q)
+            if r0 is None:
+                continue
+            # neutral: all new etas zero
+            z = dict(q)
+            for e in new_etas:
+                z[e] = 0.0
+            try:
+                dz = eval_model(m1, z)[0]
+            except Undefined as e:
+                fail('every symbol used is defined', str(e))
+                return {'nontrivial': True, 'fails': fail.items}
+            if not same(r0[0], dz):
+                fail('predictions and parameters are unchanged when all IOV etas are 0',
+                     f'{occ}={c}: differs at {_short_pt(z)}')
+                ok = False
+            total = {b: 0.0 for b in base}
+            for e in new_etas:
+                z1 = dict(z)
+                z1[e] = 0.23
+                d1 = eval_model(m1, z1)[0]
+                if same(r0[0], d1):
+                    continue
+                hit = None
+                for b in base:
+                    qq = dict(q)
+                    qq[b] = q[b] + 0.23
+                    rb = _eval_or_none(m0, qq)
+                    if rb is not None and same(rb[0], d1):
+                        hit = b
+                        break
+                if hit is None:
+                    fail('an IOV eta acts as an addition to exactly one base eta on its occasion',
+                         f'{e} at {occ}={c} changes the model but not like an addition to any of {base}')
+                    ok = False
+                else:
+                    active.setdefault((c, hit), set()).add(e)
+                    where.setdefault(e, set()).add(c)
+                    total[hit] += q[e]
+            # all together
+            qq = dict(q)
+            for b in base:
+                qq[b] = q[b] + total[b]
+            rb = _eval_or_none(m0, qq)
+            d1 = eval_model(m1, q)[0]
+            if ok and rb is not None and not same(rb[0], d1):
+                fail('model equals the old model with eta + (IOV eta of the occasion) for every base eta',
+                     f'{occ}={c}: differs at {_short_pt(q)}')
+                ok = False
+    if ok:
+        for c in cats:
+            for b in base:
+                if len(active.get((c, b), ())) != 1:
+                    fail('each occasion has exactly one IOV eta per base eta',
+                         f'{occ}={c}, {b}: active etas {sorted(active.get((c, b), ()))}')
+        for e in new_etas:
+            if len(where.get(e, ())) != 1:
+                fail('each IOV eta is active on exactly one occasion', f'{e}: occasions {sorted(where.get(e, ()))}')
+    # same variance over occasions, 10% of the IIV variance
+    try:
+        pt0 = {p.name: float(p.init) for p in m1.parameters}
+        var1 = _variances(m1, pt0)
+        var0 = _variances(m0, {p.name: float(p.init) for p in m0.parameters})
+        for b in base:
+            es = sorted({e for (c, bb), s in active.items() if bb == b for e in s})
+            vs = {round(var1[e], 14) for e in es}
+            if len(vs) > 1:
+                fail('IOV etas of one base eta have the same variance on all occasions', f'{b}: {vs}')
+            for e in es:
+                if not close(var1[e], 0.1 * var0[b], rtol=1e-6):
+                    fail('initial estimate of an IOV variance is 10% of the IIV variance it is based on',
+                         f'{e}: {var1[e]!r}, IIV {b}: {var0[b]!r}')
+                    break
+    except (Undefined, KeyError) as e:
+        fail('IOV etas of one base eta have the same variance on all occasions', f'not evaluable: {e!r}')
+    if cs_symbolic(m0) != cs_symbolic(m1):
+        fail('compartmental system is not modified', 'changed')
+    fidr = _fid(P.remove_iov)
+    try:
+        m2 = P.remove_iov(m1)
+        f2 = _Fails(fidr, fail.tag + ' then remove_iov()')
+        _unchanged(f2, 'remove_iov after add_iov restores the model function', m0, m2, _grid(m0, K))
+        if set(m2.random_variables.names) != set(m0.random_variables.names):
+            f2('remove_iov removes the IOV etas', f'{m2.random_variables.names}')
+        fail.items.extend(f2.items)
+    except Exception as e:
+        fail('completes without an undocumented exception', _exc_detail(e), fid=fidr)
+    return {'nontrivial': True, 'fails': fail.items}
+
+
+def _run_remove_iov(case, K):
+    P = pm()
+    fid = _fid(P.remove_iov)
+    fail = _Fails(fid, f"{case['model']} remove_iov()")
+    m0 = base_model(case['model'])
+    iov = list(m0.random_variables.iov.names)
+    try:
+        m1 = P.remove_iov(m0)
+    except Exception as e:
+        fail('completes without an undocumented exception', _exc_detail(e))
+        return {'nontrivial': True, 'fails': fail.items}
+    if set(m0.random_variables.names) - set(m1.random_variables.names) != set(iov):
+        fail('exactly the IOV etas are removed', f'{m1.random_variables.names}')
+    dvs, ips = _observables(m0)
+    for pt in _grid(m0, K):
+        q = dict(pt)
+        for e in iov:
+            q[e] = 0.0
+        r0 = _eval_or_none(m0, q)
+        if r0 is None:
+            continue
+        d1 = eval_model(m1, pt)[0]
+        for n in dvs + ips:
+            if n in r0[0] and not _isbad(r0[0][n]) and (n not in d1 or not close(r0[0][n], d1[n], rtol=1e-7)):
+                fail('model without IOV equals the old model with the IOV etas set to 0',
+                     f'{n}: expected {r0[0][n]!r}, got {d1.get(n)!r}')
+                break
+    return {'nontrivial': bool(iov), 'fails': fail.items}
+
+
+# -- eta transformations ---------------------------------------------------------------------------
+
+def ref_transform(tr, eta, th):
+    if tr == 'boxcox':
+        return (math.exp(eta) ** th - 1) / th
+    if tr == 'tdist':
+        return eta * (1 + (eta ** 2 + 1) / (4 * th) + (5 * eta ** 4 + 16 * eta ** 2 + 3) / (96 * th ** 2)
+                      + (3 * eta ** 6 + 19 * eta ** 4 + 17 * eta ** 2 - 15) / (384 * th ** 3))
+    if tr == 'john_draper':
+        s = (eta > 0) - (eta < 0)
+        return s * ((abs(eta) + 1) ** th - 1) / th
+    raise ValueError(tr)
+
+
+_TR_DOC = {'boxcox': (0.1, -3, 3), 'john_draper': (0.1, -3, 3), 'tdist': (80, 3, 100)}
+
+
+def _run_transform(case, K):
+    P = pm()
+    tr, sel = case['transformation'], case['etas']
+    fn = getattr(P, 'transform_etas_' + tr)
+    fid = _fid(fn)
+    fail = _Fails(fid, f"{case['model']} transform_etas_{tr}({sel})")
+    m0 = base_model(case['model'])
+    snap = _snapshot(m0)
+    try:
+        m1 = fn(m0, sel)
+    except Exception as e:
+        fail('completes without an undocumented exception', _exc_detail(e))
+        return {'nontrivial': True, 'fails': fail.items}
+    if not all(a == b for a, b in zip(snap, _snapshot(m0))):
+        fail('input model is not modified', 'input model changed')
+    etas = list(sel) if sel is not None else list(m0.random_variables.etas.names)
+    new_th = [n for n in m1.parameters.names if n not in m0.parameters.names]
+    if len(new_th) != len(etas):
+        fail('one new theta per transformed eta', f'{etas} -> {new_th}')
+        return {'nontrivial': True, 'fails': fail.items}
+    for n in new_th:
+        p = m1.parameters[n]
+        got = (float(p.init), float(p.lower), float(p.upper))
+        if got != tuple(float(x) for x in _TR_DOC[tr]):
+            fail('new theta has the documented initial estimate and bounds', f'{n}: {got}, documented {_TR_DOC[tr]}')
+            break
+    if m1.random_variables.names != m0.random_variables.names:
+        fail('random variables are not changed', f'{m1.random_variables.names}')
+    dvs, ips = _observables(m0)
+    for pt in _grid(m1, K):
+        q = dict(pt)
+        try:
+            for e, t in zip(etas, new_th):
+                q[e] = ref_transform(tr, pt[e], pt[t])
+        except (ZeroDivisionError, OverflowError, ValueError):
+            continue
+        r0 = _eval_or_none(m0, q)
+        if r0 is None:
+            continue
+        try:
+            d1 = eval_model(m1, pt)[0]
+            z = dict(pt)
+            for e in etas:
+                z[e] = 0.0
+            dz = eval_model(m1, z)[0]
+        except Undefined as e:
+            fail('every symbol used is defined', str(e))
+            break
+        rz = _eval_or_none(m0, z)
+        for n in dvs + ips:
+            if n in r0[0] and not _isbad(r0[0][n]) and (n not in d1 or not close(r0[0][n], d1[n], rtol=1e-7)):
+                fail('model equals the old model with eta replaced by the documented transformation of eta',
+                     f'{n}: expected {r0[0][n]!r}, got {d1.get(n)!r} at {_short_pt(pt)}')
+                break
+        if rz is not None:
+            for n in dvs + ips:
+                if n in rz[0] and not _isbad(rz[0][n]) and (n not in dz or not close(rz[0][n], dz[n], rtol=1e-7)):
+                    fail('predictions and parameters are unchanged at eta = 0',
+                         f'{n}: {rz[0][n]!r} before, {dz.get(n)!r} after')
+                    break
+    if cs_symbolic(m0) != cs_symbolic(m1):
+        fail('compartmental system is not modified', 'changed')
+    return {'nontrivial': True, 'fails': fail.items}
+
+
+# -- allometry -------------------------------------------------------------------------------------
+
+def _run_allometry(case, K):
+    P = pm()
+    fid = _fid(P.add_allometry)
+    var, refv, sel, fixed = case['variable'], case['reference_value'], case['parameters'], case['fixed']
+    m0 = _ext_variant(case)
+    dvs, ips = _observables(m0)
+    cands = [p for p in ips if p.startswith(('CL', 'V', 'Q'))]
+    if sel == 'first':
+        plist = cands[:1]
+    elif sel == 'last':
+        plist = cands[-1:]
+    else:
+        plist = None
+    fail = _Fails(fid, f"{case['model']}/{case.get('variant', 'none')} add_allometry({var}, ref={refv}, "
+                       f"parameters={plist}, fixed={fixed})")
+    snap = _snapshot(m0)
+    try:
+        m1 = P.add_allometry(m0, allometric_variable=var, reference_value=refv, parameters=plist, fixed=fixed)
+    except Exception as e:
+        fail('completes without an undocumented exception', _exc_detail(e))
+        return {'nontrivial': True, 'fails': fail.items}
+    if not all(a == b for a, b in zip(snap, _snapshot(m0))):
+        fail('input model is not modified', 'input model changed')
+    new_th = [n for n in m1.parameters.names if n not in m0.parameters.names]
+    for n in new_th:
+        if bool(m1.parameters[n].fix) != bool(fixed):
+            fail('exponents are fixed exactly when fixed=True', f'{n}.fix = {m1.parameters[n].fix}')
+    # which parameters must be scaled: the listed ones (or, by default, clearances and volumes) unless they
+    # already depend on the allometric variable ("nothing will be added")
+    targets = plist if plist is not None else None
+    pts = _grid(m1, K)
+    sp = dict(pts[0])
+    sp[var] = float(refv)
+    pts.append(sp)
+    scaled = {}
+    for pt in pts:
+        r0 = _eval_or_none(m0, pt)
+        if r0 is None:
+            continue
+        try:
+            d1 = eval_model(m1, pt)[0]
+        except Undefined as e:
+            fail('every symbol used is defined', str(e))
+            break
+        d0 = r0[0]
+        x = pt[var] / float(refv)
+        for p in ips:
+            if p not in d0 or _isbad(d0[p]) or d0[p] == 0:
+                continue
+            ratio = d1.get(p, float('nan')) / d0[p]
+            th = 'ALLO_' + p
+            if th in new_th:
+                want = x ** pt[th]
+                if isinstance(want, complex) or not close(ratio, want, rtol=1e-7):
+                    fail('scaled parameter equals P*(X/Z)**T', f'{p}: ratio {ratio!r}, ({pt[var]}/{refv})**{pt[th]} = {want!r}')
+                scaled[p] = True
+            elif pt[var] == float(refv) and not close(ratio, 1.0, rtol=1e-7):
+                fail('the allometric factor is 1 at the reference value', f'{p}: ratio {ratio!r} at {var}={refv}')
+        if pt[var] == float(refv):
+            for n in dvs + ips:
+                if n in d0 and not _isbad(d0[n]) and (n not in d1 or not close(d0[n], d1[n], rtol=1e-7)):
+                    fail('the allometric factor is 1 at the reference value',
+                         f'{n}: {d0[n]!r} before, {d1.get(n)!r} after at {var}={refv}')
+                    break
+    want_targets = targets if targets is not None else [p for p in ips if p in ('CL', 'V', 'VC')]
+    for p in want_targets:
+        if not _depends_numerically(m0, p, var) and p not in scaled:
+            fail('every requested parameter without an existing effect of the variable is scaled',
+                 f'{p} not scaled; new thetas {new_th}')
+        if _depends_numerically(m0, p, var) and ('ALLO_' + p) in new_th:
+            fail('nothing is added for a parameter that already depends on the allometric variable',
+                 f'{p} got {"ALLO_" + p}')
+    if cs_symbolic(m0) != cs_symbolic(m1):
+        fail('compartmental system is not modified', 'changed')
+    return {'nontrivial': bool(new_th), 'fails': fail.items}
+
+
+# -- error models ------------------------------------------------------------------------------------
+
+_CUTOFF = 20.0
+
+
+def _error_setters():
+    P = pm()
+    return {
+        'additive': (P.set_additive_error_model, lambda m: P.set_additive_error_model(m)),
+        'proportional': (P.set_proportional_error_model, lambda m: P.set_proportional_error_model(m)),
+        'proportional_nozp': (P.set_proportional_error_model,
+                              lambda m: P.set_proportional_error_model(m, zero_protection=False)),
+        'combined': (P.set_combined_error_model, lambda m: P.set_combined_error_model(m)),
+        'additive_log': (P.set_additive_error_model, lambda m: P.set_additive_error_model(m, data_trans='log(Y)')),
+        'proportional_log': (P.set_proportional_error_model,
+                             lambda m: P.set_proportional_error_model(m, data_trans='log(Y)')),
+        'combined_log': (P.set_combined_error_model, lambda m: P.set_combined_error_model(m, data_trans='log(Y)')),
+        'power_on_ruv': (P.set_power_on_ruv, lambda m: P.set_power_on_ruv(m)),
+        'power_on_ruv_zp': (P.set_power_on_ruv, lambda m: P.set_power_on_ruv(m, zero_protection=True)),
+        'time_varying': (P.set_time_varying_error_model,
+                         lambda m: P.set_time_varying_error_model(m, cutoff=_CUTOFF)),
+        'weighted': (P.set_weighted_error_model, lambda m: P.set_weighted_error_model(m)),
+        'remove': (P.remove_error_model, lambda m: P.remove_error_model(m)),
+    }
+
+
+def _y_parts(model, pt, y):
+    """(f, {eps: weight}, value of Y at pt, all assignments at eps = 0) using the reference interpreter;
+    weight of an epsilon = Y(eps=1, others 0) - Y(all eps 0)"""
+    eps = list(model.random_variables.epsilons.names)
+    z = dict(pt)
+    for e in eps:
+        z[e] = 0.0
+    dz = eval_model(model, z)[0]
+    f = dz[y]
+    w = {}
+    for e in eps:
+        q = dict(z)
+        q[e] = 1.0
+        w[e] = eval_model(model, q)[0][y] - f
+    full = eval_model(model, pt)[0][y]
+    return f, w, full, dz
+
+
+def _match_multiset(got, want, rtol=1e-7):
+    got = sorted(got)
+    want = sorted(want)
+    return len(got) == len(want) and all(close(a, b, rtol=rtol, atol=1e-12) for a, b in zip(got, want))
+
+
+def _run_error(case, K):
+    S = _error_setters()
+    P = pm()
+    m = base_model(case['model'])
+    y = _sname(list(m.dependent_variables)[0])
+    tag = f"{case['model']} " + ' ; '.join(case['setters'])
+    fails = []
+    nontriv = False
+    for step, name in enumerate(case['setters']):
+        fn, run = S[name]
+        fail = _Fails(_fid(fn), tag + f' (step {step + 1}: {name})')
+        prev = m
+        snap = _snapshot(prev)
+        try:
+            m = run(prev)
+        except Exception as e:
+            fail('completes without an undocumented exception', _exc_detail(e))
+            fails.extend(fail.items)
+            break
+        if not all(a == b for a, b in zip(snap, _snapshot(prev))):
+            fail('input model is not modified', 'input model changed')
+        if step == len(case['setters']) - 1:
+            nontriv = True
+            _check_error_step(name, prev, m, y, fail, K)
+        fails.extend(fail.items)
+    return {'nontrivial': nontriv, 'fails': fails}
+
+
+def _merged_grid(prev, new, K):
+    a = _grid(new, K)
+    b = _grid(prev, K)
+    pts = []
+    for x, z in zip(a, b):
+        q = dict(z)
+        q.update(x)
+        pts.append(q)
+    for j, tv in enumerate((_CUTOFF - 1.0, _CUTOFF, _CUTOFF + 1.0)):
+        q = dict(pts[j % len(pts)])
+        q['TIME'] = tv
+        pts.append(q)
+    return pts
+
+
+def _check_error_step(name, prev, new, y, fail, K):
+    P = pm()
+    pts = _merged_grid(prev, new, K)
+    eps_prev = list(prev.random_variables.epsilons.names)
+    eps_new = list(new.random_variables.epsilons.names)
+    new_th = [n for n in new.parameters.names if n not in prev.parameters.names]
+    log = name.endswith('_log')
+    kind = name.split('_')[0] if name not in ('power_on_ruv', 'power_on_ruv_zp', 'time_varying') else name
+    for pt in pts:
+        try:
+            f0, w0, full0, dz0 = _y_parts(prev, pt, y)
+        except (Undefined, KeyError):
+            continue
+        if _isbad(f0):
+            continue
+        try:
+            f1, w1, full1, dz1 = _y_parts(new, pt, y)
+        except Undefined as e:
+            fail('every symbol used is defined', str(e))
+            return
+        except KeyError:
+            fail('the dependent variable is still assigned', f'{y} not assigned')
+            return
+        if log and f0 <= 0:
+            continue
+        want_f = math.log(f0) if log else f0
+        if not close(want_f, f1, rtol=1e-7):
+            fail('observation with all epsilons 0 equals the individual prediction'
+                 + (' (log transformed)' if log else ''), f'prediction {want_f!r}, Y(eps=0) = {f1!r} at {_short_pt(pt)}')
+            return
+        lin = f1 + sum(w1[e] * pt[e] for e in eps_new)
+        if not close(lin, full1, rtol=1e-7):
+            fail('observation is linear in the epsilons', f'{full1!r} vs f + sum(w*eps) = {lin!r}')
+            return
+        used = {e: w for e, w in w1.items() if not (not _isbad(w) and w == 0)}
+        if kind in ('additive', 'proportional', 'combined'):
+            if f0 == 0:
+                continue
+            if kind == 'additive':
+                want = [1 / f0] if log else [1.0]
+            elif kind == 'proportional':
+                want = [1.0] if log else [f0]
+            else:
+                want = [1.0, 1 / f0] if log else [f0, 1.0]
+            if not _match_multiset(list(used.values()), want):
+                fail(f'dY/deps are the documented weights of the {kind} error model'
+                     + (' (log transformed)' if log else ''),
+                     f'prediction f={f0!r}: weights {used}, documented {want}')
+                return
+        elif kind == 'remove':
+            if used or not close(full1, f0, rtol=1e-7):
+                fail('without error model the observation equals the prediction', f'Y={full1!r}, f={f0!r}, weights {used}')
+                return
+        elif kind in ('power_on_ruv', 'power_on_ruv_zp'):
+            if f0 <= 0:
+                continue
+            if eps_new != eps_prev or len(new_th) != len(eps_prev):
+                fail('one power theta per epsilon, epsilons unchanged', f'{eps_prev}->{eps_new}, thetas {new_th}')
+                return
+            # is the weight of an epsilon proportional to the prediction?  scale the amounts
+            q = {k: (v * 2.0 if k.startswith('A_') else v) for k, v in pt.items()}
+            try:
+                f0b, w0b, _, _ = _y_parts(prev, q, y)
+            except Undefined:
+                continue
+            for e, th in zip(eps_prev, new_th):
+                if w0[e] == 0 or f0b == f0 or f0b <= 0:
+                    continue
+                prop = close(w0b[e] / w0[e], f0b / f0, rtol=1e-6)
+                want = (w0[e] / f0 if prop else w0[e]) * f0 ** pt[th]
+                if not close(want, w1[e], rtol=1e-7):
+                    fail('weight of each epsilon is multiplied by prediction**theta (replacing a factor '
+                         'prediction when the weight is proportional to it)',
+                         f'{e}: old weight {w0[e]!r} ({"proportional" if prop else "not proportional"} to f), '
+                         f'f={f0!r}, {th}={pt[th]!r}: expected {want!r}, got {w1[e]!r}')
+                    return
+        elif kind == 'time_varying':
+            if eps_new != eps_prev or len(new_th) != 1:
+                fail('one new theta, epsilons unchanged', f'{eps_prev}->{eps_new}, thetas {new_th}')
+                return
+            for e in eps_prev:
+                want = w0[e] * pt[new_th[0]] if pt['TIME'] < _CUTOFF else w0[e]
+                if not close(want, w1[e], rtol=1e-7):
+                    fail('weights are multiplied by the new theta before the cutoff and unchanged from the cutoff on',
+                         f'TIME={pt["TIME"]}, cutoff {_CUTOFF}, {e}: old {w0[e]!r}, theta {pt[new_th[0]]!r}, new {w1[e]!r}')
+                    return
+        elif kind == 'weighted':
+            if len(used) > 1:
+                fail('one epsilon with W as weight', f'weights {used}')
+                return
+            if 'W' not in dz1:
+                fail('one epsilon with W as weight', 'W is not assigned')
+                return
+            if used and not close(abs(list(used.values())[0]), abs(dz1['W']), rtol=1e-7):
+                fail('one epsilon with W as weight', f'dY/deps = {used}, W = {dz1["W"]!r}')
+                return
+            nz0 = [w for w in w0.values() if w != 0]
+            if len(nz0) == 1 and (not used or not close(abs(nz0[0]), abs(list(used.values())[0]), rtol=1e-7)):
+                fail('with a single epsilon the weight W equals the old weight', f'old {nz0}, new {used}')
+                return
+    # detectors
+    if name in ('additive', 'proportional', 'combined', 'proportional_nozp'):
+        k = name.split('_')[0]
+        try:
+            got = {'additive': P.has_additive_error_model(new), 'proportional': P.has_proportional_error_model(new),
+                   'combined': P.has_combined_error_model(new)}
+        except Exception as e:
+            fail('detectors complete without an undocumented exception', _exc_detail(e))
+            return
+        if not got[k] or sum(bool(v) for v in got.values()) != 1:
+            fail('exactly the detector of the error model that was set reports True', f'{got}')
+    if cs_symbolic(prev) != cs_symbolic(new):
+        fail('compartmental system is not modified', 'changed')
+    ips = _observables(prev)[1]
+    for pt in pts[:2]:
+        r0, r1 = _eval_or_none(prev, pt), _eval_or_none(new, pt)
+        if r0 and r1:
+            for n in ips:
+                if n in r0[0] and not _isbad(r0[0][n]) and (n not in r1[0] or not close(r0[0][n], r1[0][n])):
+                    fail('individual parameters are not changed', f'{n}: {r0[0][n]!r} -> {r1[0].get(n)!r}')
+                    return
+
+
+# -- driver ------------------------------------------------------------------------------------------
+
+_EXT_RUNNERS = {'cov': _run_cov, 'iiv': _run_iiv, 'remove_iiv': _run_remove_iiv, 'iov': _run_iov,
+                'remove_iov': _run_remove_iov, 'transform': _run_transform, 'allometry': _run_allometry,
+                'error': _run_error}
+
+
+def run_extension_case(case, tier='quick'):
+    K = _K_THOROUGH if tier == 'thorough' else _K_QUICK
+    return _EXT_RUNNERS[case['family']](case, K)
+
+
+def _extension_worker(args):
+    case, tier = args
+    try:
+        return case, run_extension_case(case, tier)
+    except Exception:
+        return case, {'nontrivial': False, 'fails': [('contracts/b_ext.py:run_extension_case', 'checker error',
+                                                      repr(case) + ' ' + traceback.format_exc()[-700:])]}
+
+
+def bounded_extensions(tier):
+    pm()
+    for b in ('pheno', 'moxo'):
+        base_model(b)
+    cases = extension_cases(tier)
+    results = _pool_map(_extension_worker, [(c, tier) for c in cases])
+    nontriv, fails = _collect(results, 'bounded_extensions_replay')
+    K = _K_THOROUGH if tier == 'thorough' else _K_QUICK
+    fam = {}
+    for c in cases:
+        fam[c['family']] = fam.get(c['family'], 0) + 1
+    return {
+        'cases': len(cases), 'nontrivial': nontriv,
+        'bound': 'pheno and moxo x {add_covariate_effect: all (individual parameter, covariate, 6 effects, 2 '
+                 'operations); add_iiv: 3 parameters x 5 templates; remove_iiv; add_iov: 2 occasion columns x 4 '
+                 'parameter lists x 3 distributions; 3 eta transformations x all eta selections; add_allometry: 5 '
+                 'models x 2 reference values x 3 parameter lists x fixed; error models: all sequences of <= 2 of 12 '
+                 f'setters}} = {fam}; each at {K} grid points plus the reference/category/cutoff points',
+        'samples': [repr(cases[i]) for i in (0, len(cases) // 2, len(cases) - 1)],
+        'fails': fails,
+    }
+
+
+def bounded_extensions_replay(rp):
+    res = run_extension_case(rp['case'], rp.get('tier', 'quick'))
     want = rp.get('clause')
     for fid, clause, detail in res['fails']:
         if want is None or clause == want:
